@@ -46,6 +46,18 @@ CmpSeq(xs, ys, i) ==
     ELSE IF i > Len(xs) THEN -1 ELSE IF i > Len(ys) THEN 1
     ELSE IF Code[xs[i]] < Code[ys[i]] THEN -1 ELSE IF Code[xs[i]] > Code[ys[i]] THEN 1
     ELSE CmpSeq(xs, ys, i + 1)
+RECURSIVE ReplN(_, _, _, _, _), Inter(_, _, _), LStripP(_, _), RStripP(_, _)
+\* the first k occurrences replaced, left to right, non-overlapping
+ReplN(h, n, rep, i, k) ==
+    IF i > Len(h) THEN <<>>
+    ELSE IF k > 0 /\ MatchAt(h, n, i) THEN rep \o ReplN(h, n, rep, i + Len(n), k - 1)
+    ELSE <<h[i]>> \o ReplN(h, n, rep, i + 1, k)
+\* join of one-character strings with a separator
+Inter(h, sep, i) == IF i > Len(h) THEN <<>>
+                    ELSE <<h[i]>> \o (IF i < Len(h) THEN sep ELSE <<>>) \o Inter(h, sep, i + 1)
+StripSet == {"a", "sp"}        \* the predicate (c: str) -> {c == "a" || c == " "}
+LStripP(xs, i) == IF i > Len(xs) \/ xs[i] \notin StripSet THEN i - 1 ELSE LStripP(xs, i + 1)
+RStripP(xs, i) == IF i < 1 \/ xs[i] \notin StripSet THEN Len(xs) - i ELSE RStripP(xs, i - 1)
 LStripN(xs, i) == IF i > Len(xs) \/ ~IsSpace(xs[i]) THEN i - 1 ELSE LStripN(xs, i + 1)
 RStripN(xs, i) == IF i < 1 \/ ~IsSpace(xs[i]) THEN Len(xs) - i ELSE RStripN(xs, i - 1)
 
@@ -61,6 +73,7 @@ SLit(xs) == [k |-> "symlit", v |-> xs]            \* rendered by the harness as 
 Call(f, as) == [k |-> "call", f |-> f, args |-> as, sty |-> "method"]
 New(kind, v, term) == [n |-> Name(Len(pool) + 1), k |-> kind, err |-> FALSE, v |-> v, term |-> term]
 NewErr(kind, term) == [n |-> Name(Len(pool) + 1), k |-> kind, err |-> TRUE, v |-> <<>>, term |-> term]
+StripLam == [k |-> "raw", src |-> "(c: str) -> {c == \"a\" || c == \" \"}"]
 RandStr(rr, off, maxlen) == LET n == rr[off] % (maxlen + 1) IN [j \in 1..n |-> Alphabet[(rr[off + j] % Len(Alphabet)) + 1]]
 
 Source(rr) == LET xs == RandStr(rr, 2, 5) IN New("str", xs, SLit(xs))
@@ -75,7 +88,7 @@ Op(rr) ==
     LET S == Strs
     IN IF S = {} THEN Source(rr)
     ELSE
-    LET i == Ch(S, rr[1])  h == pool[i].v  n == Len(h)  o == Ch(1..26, rr[2])
+    LET i == Ch(S, rr[1])  h == pool[i].v  n == Len(h)  o == Ch(1..38, rr[2])
         nd == Needle(h, rr)
     IN
     CASE o = 1 -> New("int", IntV(n), Call("len", <<V(i)>>))
@@ -117,6 +130,26 @@ Op(rr) ==
       [] o = 25 -> IF n = 1 THEN New("int", IntV(Code[h[1]]), Call("code_point", <<V(i)>>))
                    ELSE NewErr("int", Call("code_point", <<V(i)>>))
       [] o = 26 -> LET j == Ch(S, rr[3]) IN New("bool", BoolV(h = pool[j].v), [k |-> "call", f |-> "eq", sty |-> "op", args |-> <<V(i), V(j)>>])
+      \* ---- second batch (std/str.md) ----
+      [] o = 27 -> LET st == Ch(0..n, rr[3])
+                   IN New("bool", BoolV(FindFrom(h, nd, st + 1) # 0), Call("contains", <<V(i), SLit(nd), Lit(st)>>))
+      [] o = 28 -> LET sep == RandStr(rr, 4, 2)
+                   IN IF n * (1 + Len(sep)) > 14 THEN Source(rr)
+                      ELSE New("str", Inter(h, sep, 1), Call("join", <<Call("chars", <<V(i)>>), SLit(sep)>>))
+      [] o = 29 -> New("str", IF MatchAt(h, nd, 1) THEN SubSeq(h, Len(nd) + 1, n) ELSE h, Call("remove_prefix", <<V(i), SLit(nd)>>))
+      [] o = 30 -> New("str", IF Len(nd) <= n /\ SubSeq(h, n - Len(nd) + 1, n) = nd THEN SubSeq(h, 1, n - Len(nd)) ELSE h,
+                       Call("remove_suffix", <<V(i), SLit(nd)>>))
+      [] o = 31 -> LET rep == RandStr(rr, 4, 2) k == Ch(0..2, rr[3])
+                   IN New("str", ReplN(h, nd, rep, 1, k), Call("replace", <<V(i), SLit(nd), SLit(rep), Lit(k)>>))
+      [] o = 32 -> LET a == LStripP(h, 1)  mid == SubSeq(h, a + 1, n)
+                   IN New("str", SubSeq(mid, 1, Len(mid) - RStripP(mid, Len(mid))), Call("strip", <<V(i), StripLam>>))
+      [] o = 33 -> New("str", SubSeq(h, LStripP(h, 1) + 1, n), Call("lstrip", <<V(i), StripLam>>))
+      [] o = 34 -> New("str", SubSeq(h, 1, n - RStripP(h, n)), Call("rstrip", <<V(i), StripLam>>))
+      [] o = 35 /\ n >= 1 -> New("bool", BoolV(\A j \in 1..n : IsSpace(h[j])), Call("is_whitespace", <<V(i)>>))
+      \* splitting and joining with the same separator gives the string back
+      [] o = 36 -> New("str", h, Call("join", <<Call("split", <<V(i), SLit(nd)>>), SLit(nd)>>))
+      [] o = 37 -> LET j == Ch(S, rr[3]) IN New("bool", BoolV(CmpSeq(h, pool[j].v, 1) < 0), [k |-> "call", f |-> "lt", sty |-> "op", args |-> <<V(i), V(j)>>])
+      [] o = 38 -> LET j == Ch(S, rr[3]) IN New("bool", BoolV(CmpSeq(h, pool[j].v, 1) >= 0), [k |-> "call", f |-> "ge", sty |-> "op", args |-> <<V(i), V(j)>>])
       [] OTHER -> Source(rr)
 
 Init == pool = <<>> /\ step = 0 /\ r = <<>>
